@@ -18,6 +18,8 @@
   `dl`, `su`, `sd`, `lf`, `nel`, `ri`, `rep` (no cell with a foreign pen appears in the view).
   Not covered: DECALN (fills with the default pen by definition), RIS, buffer switches and resizes
   (their fresh cells are specified by C16/C19/C10).
+  Frame clause (`checkPenFrame`): any event none of whose functions satisfies `setsPen`, and any
+  resize, leaves the pen as it is.
 -/
 import Avt.Spec.Base
 
@@ -245,11 +247,42 @@ def isPrint : Function → Bool
   | .print _ => true
   | _ => false
 
+/-! ### the pen is state: who may change it -/
+
+/-- DEC private modes whose *reset* restores the saved cursor, and with it the saved pen
+    (1048, 1049).  Setting them only saves; 1 / 6 / 7 / 25 / 47 / 1047 never touch the pen in either
+    direction. -/
+def restoresPen : DecMode → Bool
+  | .saveCursor | .saveCursorAltScreenBuffer => true
+  | _ => false
+
+/-- The functions that may change the pen: SGR, the restores (DECRC, SCORC, DECRST 1048 / 1049 —
+    the pen comes back from the saved context) and the two resets (DECSTR, RIS — back to the
+    default).  Everything else — printing, erasing, scrolling, every cursor movement, saving the
+    cursor, setting any DEC mode, resetting 1 / 6 / 7 / 25 / 47 / 1047 (both directions of the plain
+    switch of screens, with the reflow that follows), XTWINOPS — leaves the pen exactly as it is
+    (`Avt.Props.C08.C08_pen_persists`), and so does a resize (`C08_pen_persists_resize`). -/
+def setsPen : Function → Bool
+  | .sgr _ | .decrc | .scorc | .decstr | .ris => true
+  | .decrst ms => ms.any restoresPen
+  | _ => false
+
 /-! ### the oracle -/
+
+/-- the pen is state that only SGR, the restores and the resets may change -/
+def checkPenFrame (ev : StepEv) : List Verdict :=
+  let pt := ev.prev.terminal
+  let nt := ev.next.terminal
+  if ev.kind == .resize then
+    [ check "resize-keeps-pen" (Pen.obs pt.pen != Obs.default) (nt.pen == pt.pen) ]
+  else if !ev.funs.isEmpty && ev.funs.all (fun f => !setsPen f) then
+    [ check "pen-persists" (Pen.obs pt.pen != Obs.default) (nt.pen == pt.pen) ]
+  else []
 
 def checkStep (ev : StepEv) : List Verdict :=
   let pt := ev.prev.terminal
   let nt := ev.next.terminal
+  checkPenFrame ev ++
   match ev.funs with
   | [.sgr ops] =>
     let written := if ev.prev.parser.state = .Ground then parseSgrText ev.input else none
